@@ -295,10 +295,21 @@ def run(run: Run) -> None:
                     continue
                 us.append(("search", 4, v, K0, k, SA[(gi + k) % 2], gaps.NAMES[(gi + ki + k) % 4], ps_q if quick else ps_all,
                            (1, 2, 3, 4, 8, 16) if (K0 == base4 and k == 2 and gi == 0) else (), f"exact4#{gi}"))
+    # SAM computers on SAM games: these computers keep reading what earlier tasks left in the (per-chunk shared) game object
+    sam3, sam4 = A.a3_sam(), A.a4_sam()
+    for gi in range(2 if quick else 6):
+        v = sam3[(37 * (seed + 1) + 53 * gi) % len(sam3)]
+        if gi % 2:
+            v = A.shifted(v, (-1, -2, 0))
+        for K0 in A.knowledge_sets(3):
+            for k in ((None, 2) if quick else (0, 1, 2, 3, None)):
+                us.append(("search", 3, v, K0, k, ("sam_apx_1", "sam_apx_10")[gi % 2], gaps.NAMES[(gi + (k or 0)) % 4], ps_q if quick else ps_all, (),
+                           f"sam3#{gi}"))
+    for gi in range(1 if quick else 3):
+        v = sam4[(3 * seed + 7 + 61 * gi) % len(sam4)]
+        us.append(("search", 4, v, base4, 2, "sam_apx_1", gaps.NAMES[gi % 4], ps_q if quick else ps_all, (2,) if gi == 0 else (), f"sam4#{gi}"))
     if not quick:
         us.append(("search", 4, picks4[0], base4, 4, SA[1], "l1_norm", [1, 2, 4, 16], (2,), "exact4-k4"))
-        sam = A.a4_sam()
-        us.append(("search", 4, sam[(3 * seed + 7) % len(sam)], base4, 2, "sam_apx_1", "l1_norm", ps_all, (), "sam4"))
     for i, name in enumerate(("noisy_factory", "graph_random", "xos")):
         us.append(("search", 3, ("GEN", name, 3, seed), base3, 2, SA[i % 2], gaps.NAMES[i], [1, 2, 4], (), f"gen:{name}"))
     # meta-game
@@ -307,6 +318,8 @@ def run(run: Run) -> None:
             for gap_name in (("exploitability", "l1_norm") if quick else gaps.NAMES):
                 us.append(("meta", 3, v, comp, gap_name, None, f"exact3#{gi}"))
     us.append(("meta", 4, picks4[0], SA[1], "l1_norm", 2, "exact4#0"))
+    us.append(("meta", 3, sam3[(37 * (seed + 1)) % len(sam3)], "sam_apx_1", "l1_norm", None, "sam3"))
+    us.append(("meta", 4, sam4[(3 * seed + 7) % len(sam4)], "sam_apx_1", "exploitability", 2, "sam4"))
     if not quick:
         us.append(("meta", 4, picks4[1], SA[0], "exploitability", 2, "exact4#1"))
     # best states
@@ -315,6 +328,11 @@ def run(run: Run) -> None:
         us.append(("best", 3, picks3[:3], SA[reps % 2], gaps.NAMES[reps % 4], 3, reps, sched_small if not quick else sched_small[:4], f"exact3-r{reps}"))
     us.append(("best", 3, [("GEN", "noisy_factory", 3, seed), ("GEN", "noisy_factory", 3, seed + 1)], SA[1], "exploitability", 2, 2, sched_small[:3], "gen3"))
     us.append(("best", 4, picks4[:2], SA[1], "l1_norm", 2, 2, sched_small[:3] if quick else sched_small, "exact4-r2"))
+    # games in which a PARTIAL reveal set already closes the gap exactly (optimum 0 before everything is revealed)
+    surplus4 = tuple(float(A.popcount(s)) + (1.0 if s == 15 else 0.0) for s in range(16))
+    us.append(("best", 4, [surplus4, A.scaled(surplus4, 2.0)], SA[1], "l1_norm", 4 if quick else 5, 2, sched_small[:2], "surplus4"))
+    surplus3 = tuple(float(A.popcount(s)) + (1.0 if s == 7 else 0.0) for s in range(8))
+    us.append(("best", 3, [surplus3, tuple([0.0] * 8)], SA[0], "linf_norm", 3, 2, sched_small[:3], "surplus3+zero"))
     if not quick:
         us.append(("best", 4, picks4[:3], SA[0], "exploitability", 3, 3, sched_small[:3], "exact4-r3"))
     run.rule = ("get_exploitabilities_of_action_sequences for every starting knowledge (n=3: all 8; n=4: minimal, minimal+one coalition, minimal+all pairs) x "
